@@ -82,7 +82,9 @@ def find_wait_loop(project: Project) -> Tuple[FuncInfo, ast.AST, ast.Assign, Fun
         for n in walk_local(f.node):
             if isinstance(n, (ast.While, ast.For, ast.AsyncFor)):
                 for a in walk_local(n):
-                    if isinstance(a, ast.Assign) and is_receive_await(a.value, streams):
+                    if isinstance(a, ast.Assign) and (is_receive_await(a.value, streams) or any(is_receive_await(x, streams) for x in ast.walk(a.value))):
+                        # the received message may be bound through an expression around the await
+                        # (`cache.pop(k, None) or await s.receive()`): still the receive assignment
                         cands.append((f, n, a))
     # keep the innermost loop per assignment
     best = {}
